@@ -18,7 +18,7 @@ func init() {
 
 func checkC20(e *core.Env) {
 	curEnv = e
-	e.SetRule("in-process streams of all stream kinds, both directions, 1..200 attempted sends, receiver stalling after k in {0,1,2,5} receives (optionally after Header()), with and without pending header frames; counters at the API boundary assert at every successful send return: completed sends <= receives started by the peer + 1; the stalled sender is observed parked inside SendMsg, then one of {peer receives, peer finishes, context ends} is applied and the send must return; distinct = (direction, kind, k, headers, release); when the receiver goes on, every send has succeeded and everything offered has arrived (backpressure is waiting, not failing); second phase: a full-duplex handler whose pusher goroutine is blocked while the handler receives from a client that sends before it listens (the directions are independent), and a single-response method whose handler keeps sending after the client failed the call (the handler's sends end although the caller's context lives on)")
+	e.SetRule("in-process streams of all stream kinds, both directions, 1..200 attempted sends, receiver stalling after k in {0,1,2,5} receives (optionally after Header()), with and without pending header frames; counters at the API boundary assert at every successful send return: completed sends <= receives started by the peer + 1; the stalled sender is observed parked inside SendMsg, then one of {peer receives, peer finishes, context ends} is applied and the send must return; distinct = (direction, kind, k, headers, release); when the receiver goes on, every send has succeeded and everything offered has arrived (backpressure is waiting, not failing); second phase: a full-duplex handler whose pusher goroutine is blocked while the handler receives from a client that sends before it listens (the directions are independent), a single-response method whose handler keeps sending after the client failed the call (the handler's sends end although the caller's context lives on), and a handler that returns while a helper goroutine of its own and the client are both blocked inside SendMsg (the client's send is released by the peer finishing)")
 	e.Assume("a receive counts as started when the application calls RecvMsg or Header(); the bound is read after the send returned, which can only loosen it")
 	runC20(e, e.N(240, 3000))
 }
@@ -220,7 +220,7 @@ func runC20(e *core.Env, n int) {
 	e.Cases("peer-behaviour", e.N(40, 400), func(i int, r *rand.Rand) {
 		tag := fmt.Sprintf("%016x", r.Uint64())
 		sc := &Script{}
-		variant := []string{"independent-directions", "peer-gave-up"}[i%2]
+		variant := []string{"independent-directions", "peer-gave-up", "helper-blocked-at-return"}[i%3]
 		nsend := 0
 		switch variant {
 		case "independent-directions":
@@ -235,6 +235,24 @@ func runC20(e *core.Env, n int) {
 			sc.Receiver = []Op{{Op: "recvall"}}
 			sc.RecvAfterSend = true
 			sc.Handler = []Op{{Op: "bg-sends", Msg: genMsg(r, tag+"/pushed", false)}, {Op: "recvall"}}
+		case "helper-blocked-at-return":
+			// the handler returns while a helper goroutine of its own is blocked inside SendMsg (the client is not
+			// listening yet) and the client is blocked inside SendMsg too (the handler has stopped receiving):
+			// "the peer finishes" releases the client's send; it then listens, which releases the helper
+			nsend = pick(r, 4, 6, 10)
+			sc.Kind = Bidi
+			for j := 0; j < nsend; j++ {
+				sc.Sender = append(sc.Sender, Op{Op: "send", Msg: genMsg(r, fmt.Sprintf("%s/%d", tag, j), false)})
+			}
+			sc.Sender = append(sc.Sender, Op{Op: "close"})
+			sc.Receiver = []Op{{Op: "recvall"}}
+			sc.RecvAfterSend = true
+			sc.Handler = []Op{{Op: "bg-pusher", Msg: genMsg(r, tag+"/pushed", false)}}
+			for j := r.Intn(3); j > 0; j-- {
+				sc.Handler = append(sc.Handler, Op{Op: "recv"})
+			}
+			// (returns only once helper and client are parked: the gate is opened when the run has gone quiet)
+			sc.Handler = append(sc.Handler, Op{Op: "gate", Gate: "both-parked"})
 		case "peer-gave-up":
 			// a single-response method whose handler keeps producing responses: the client fails the call after the
 			// second one and stops listening; the handler's sends then end (with an error) although the caller's
@@ -254,6 +272,12 @@ func runC20(e *core.Env, n int) {
 			run.Exec(inp.CC, nil, 10*time.Minute)
 			close(done)
 		}()
+		if variant == "helper-blocked-at-return" {
+			if stalled, _ := waitStalled(run, done); stalled {
+				e.Count("helper_and_client_parked_at_return", 1)
+			}
+			run.Release("both-parked")
+		}
 		fin, stuck, dump := waitDoneOrStuck(done, 60*time.Second)
 		e.Eval("peer-behaviour|"+variant+fmt.Sprintf("|n=%d", nsend), true)
 		w := map[string]any{"script": sc, "events": run.Events()}
